@@ -144,6 +144,18 @@ func (ln line) intersectLine(other line) lineWithLineIntersection {
 		//----------------------
 	}
 
+	// The orientation tests above are computed independently of each other, so
+	// for nearly collinear segments they can disagree because of rounding (one
+	// reports collinear where its counterpart doesn't), and none of the cases
+	// above is entered. Segments that share an endpoint exactly always
+	// intersect at (least at) that endpoint.
+	if a == c || a == d {
+		return lineWithLineIntersection{false, a, a}
+	}
+	if b == c || b == d {
+		return lineWithLineIntersection{false, b, b}
+	}
+
 	return lineWithLineIntersection{empty: true}
 }
 
